@@ -69,7 +69,14 @@ func (g *c08Gen) yield(file string, minIdx int, vars []string, depth int, inUses
 			g.labels["omitted-argument"] = true
 			continue
 		}
-		n.Params = append(n.Params, mj.Param{Name: p, E: g.argValue(vars)})
+		arg := g.argValue(vars)
+		if g.n(0, 3, "sameNameArg") == 0 {
+			// pass a variable through under the parameter's own name: the argument is the caller's variable
+			g.p.Vars[p] = mj.RStr("EV:" + p)
+			arg = mj.Var(p)
+			g.labels["argument-named-like-its-parameter"] = true
+		}
+		n.Params = append(n.Params, mj.Param{Name: p, E: arg})
 	}
 	if g.n(0, 4, "extraArg") == 0 {
 		g.labels["argument-the-block-does-not-declare"] = true
